@@ -313,8 +313,7 @@ def body_timer(S, t, part):
                 M["next_tick"] = nxt + interval
                 if done():
                     m_complete(nxt)
-    if roc:
-        S.assume(start < end if up else start > end)
+    S.assume(start < end if up else start > end)          # a timer whose start value already lies at/after its end value is a degenerate configuration
     ticked = 0
     for i in range(part["n"]):
         op = part["ops"][i] if i < len(part["ops"]) else TOPS[S.choice("op%d" % i, len(TOPS))]
@@ -334,14 +333,16 @@ def body_timer(S, t, part):
         elif op in ("add", "sub", "jump") and not M["dead"]:
             m.events.post("tmr_" + op)
             M["ticks"] = M["ticks"] + 2 if op == "add" else (M["ticks"] - 1 if op == "sub" else 1)
+            if op == "jump" and M["running"]:
+                M["next_tick"] = now + interval          # jump re-creates the periodic task: the tick phase restarts
             if done():
                 m_complete(now)
         elif op == "restart" and not M["dead"]:
             m.events.post("tmr_restart")
             M["ticks"] = start
-            if done():
-                m_complete(now)
-            elif not M["running"]:
+            if M["running"]:
+                M["next_tick"] = now + interval          # reset() jumps: the tick phase restarts
+            else:
                 m_start(now)
         elif op == "mode_stop":
             m.events.post("stop_tm")
